@@ -121,7 +121,7 @@ inline Trace gen_trace(uint64_t seed, int shape) {
 inline std::string trace_json(const Trace& t, size_t max_ops = 40) {
     Json j; j.obj(); j.kv("class", "E"); j.kv("trace_seed", vrt::hex64(t.seed)); j.kv("shape", shape_names[t.shape]); j.kv("huge_pages_requested", t.huge_pages); j.kv("ops", (long long)t.ops.size());
     j.key("first_ops").arr();
-    for (size_t i = 0; i < t.ops.size() && i < max_ops; i++) { const Op& o = t.ops[i]; std::string s = op_names[o.kind]; if (o.kind != O_FREE && o.kind != O_MSIZE && o.kind != O_CLEAN && o.kind != O_REALLOC_ZERO) { s += " " + szs(o.n); if (o.al) s += (o.kind == O_CALLOC || o.kind == O_ALLOCATOR ? " unit " : " align ") + szs(o.al); } j.val(s); }
+    for (size_t i = 0; i < t.ops.size() && i < max_ops; i++) { const Op& o = t.ops[i]; std::string s = op_names[o.kind]; if (o.kind != O_FREE && o.kind != O_MSIZE && o.kind != O_CLEAN && o.kind != O_REALLOC_ZERO) { s += " " + szs(o.n); if (o.al && (o.kind == O_CALLOC || o.kind == O_ALLOCATOR)) s += " unit " + szs(o.al); else if (o.al && (o.kind == O_AMALLOC || o.kind == O_PMEMALIGN || o.kind == O_AREALLOC || o.kind == O_PMR)) s += " align " + szs(o.al); } j.val(s); }
     j.end_arr(); j.end_obj();
     return j.s;
 }
@@ -231,9 +231,6 @@ struct TraceRun {
             vrt::progress();
             if ((i & 15) == 15 && !sparse) sweep("periodic sweep");
             if (C.violations > 3) break;
-            // The library could not even initialise so far (its first mapping is refused again and again). Hundreds of failed
-            // initialisations in a row are the subject of class I (known finding: each one leaks a TLS key); this class stops here.
-            if (api_success == 0 && api_failures >= 900) { C.stat("E_traces_cut_after_900_failed_initialisations"); break; }
         }
         publish_counts();
         long calls_in_trace = g_map_inj.calls.load(), fired = g_map_inj.fired.load();
@@ -267,7 +264,7 @@ struct TraceRun {
 
 // --------------------------------------------------------------------------------------------- class I
 // N requests in a row while every mapping call is refused (the library cannot initialise), then memory comes back.
-// For N >= 1024 this is a known defect (every failed initialisation leaks a pthread key); it runs in processes of its own.
+// N >= 1024 is the reproducer of a defect this check found (every failed initialisation leaked a pthread key; repaired by 252356a).
 inline void init_failure_child(Child& C, long n) {
     FaultPlan all; all.kind = FaultPlan::RANGE; all.from = 1; all.to = LONG_MAX;
     g_map_inj.reset_counts(); g_map_inj.arm(all);
